@@ -5,7 +5,7 @@
    reachable by insert/remove histories is well-formed) [Server.cat_lookup] returns exactly
    the entry [CatTree.cat_lookup] returns — same class, same name modulo case, same kind. *)
 From QV Require Import Base.ListX Model.NameWire Model.Reader Model.RdataLite Spec.NameWireS Spec.NameRepr
-  Spec.ReaderS Model.CatTree Spec.CatTreeS Proofs.CatTreeP Proofs.CatTreeInvP Proofs.CatTreeSP Proofs.CatTreeCatP
+  Spec.ReaderS Model.CatTree Spec.CatTreeS Proofs.CatTreeP Proofs.CatTreeInvP Proofs.CatTreeSP Proofs.CatTreeCatP Proofs.CatTreeSingleP
   Proofs.NameWireP Proofs.ReaderP Model.Server Proofs.ServerP Model.ServerCat.
 Local Open Scope nat_scope.
 
@@ -42,35 +42,37 @@ Proof.
 Qed.
 
 (* ---------- the link ---------- *)
-Lemma tree_lookup_flat (c : tcatalog) nm cls : wf_cat c ->
-  exists r, CatTree.cat_lookup c nm cls = Ok r /\
-            Server.cat_lookup (flat_of_tree c) (lower_name nm) cls None = option_map srv_entry r.
+(* For ANY catalog implementation that refines the flat reference map of C22 — a map [m] storing every
+   entry at its own key, a listing [l] of exactly its entries — the server model's lookup on the flat
+   view of the listing returns the entry the specification's longest-suffix lookup prescribes. *)
+Lemma flat_lookup_refmap (m : refmap tentry) (l : list tentry) cls q r :
+  rm_consistent CatTree.e_name CatTree.e_class m -> rm_is_iter CatTree.e_name CatTree.e_class m l ->
+  rm_is_lookup m cls q r ->
+  Server.cat_lookup (map srv_entry l) q cls None = option_map srv_entry r.
 Proof.
-  intros Hwf. destruct (cat_lookup_refine entry_kind c nm cls) as (r & E & L). exists r. split; [exact E|].
-  pose proof (cat_lookup_spec (flat_of_tree c) (lower_name nm) cls None _ eq_refl) as S.
-  pose proof (abs_consistent entry_kind c Hwf) as Cons. pose proof (cat_iter_in entry_kind c Hwf) as It.
-  change (canon nm) with (lower_name nm) in L.
-  assert (F3 : forall e p, abs c (cls, p) = Some e -> CatTree.e_class e = cls /\ lower_name (CatTree.e_name e) = p).
+  intros Cons [_ It] L.
+  pose proof (cat_lookup_spec (map srv_entry l) q cls None _ eq_refl) as S.
+  assert (F3 : forall e p, m (cls, p) = Some e -> CatTree.e_class e = cls /\ lower_name (CatTree.e_name e) = p).
   { intros e p H. apply Cons in H. unfold CatTreeS.key_of in H. inversion H. split; reflexivity. }
-  assert (F4 : forall e, In e (cat_iter c) -> abs c (CatTree.e_class e, lower_name (CatTree.e_name e)) = Some e).
+  assert (F4 : forall e, In e l -> m (CatTree.e_class e, lower_name (CatTree.e_name e)) = Some e).
   { intros e H. apply It in H. destruct H as [k H]. pose proof (Cons _ _ H) as K. unfold CatTreeS.key_of in K.
     rewrite <- K in H. exact H. }
-  assert (F1 : forall e p, abs c (cls, p) = Some e ->
-               In (srv_entry e) (flat_of_tree c) /\ (Server.e_class (srv_entry e) =? cls)%N = true /\
+  assert (F1 : forall e p, m (cls, p) = Some e ->
+               In (srv_entry e) (map srv_entry l) /\ (Server.e_class (srv_entry e) =? cls)%N = true /\
                Server.e_name (srv_entry e) = p).
   { intros e p H. destruct (F3 e p H) as [A B]. split; [|split].
-    - unfold flat_of_tree. apply in_map. apply It. eauto.
+    - apply in_map. apply It. eauto.
     - simpl. apply N.eqb_eq. exact A.
     - simpl. exact B. }
-  destruct (Server.cat_lookup (flat_of_tree c) (lower_name nm) cls None) as [s|].
+  destruct (Server.cat_lookup (map srv_entry l) q cls None) as [s|].
   - destruct S as ([S0|(Sin & Scl & Ssuf)] & _ & Smax); [discriminate|].
-    unfold flat_of_tree in Sin. apply in_map_iff in Sin. destruct Sin as (e' & <- & Hin').
+    apply in_map_iff in Sin. destruct Sin as (e' & <- & Hin').
     simpl in Scl. apply N.eqb_eq in Scl. simpl in Ssuf. apply srv_is_suffix_spec in Ssuf.
     pose proof (F4 e' Hin') as A'. rewrite Scl in A'.
     destruct r as [e|]; simpl.
     + destruct L as (p & Ap & Psuf & Pmax).
       destruct (F1 e p Ap) as (I1 & C1 & N1).
-      assert (Ssuf1 : Server.is_suffix (Server.e_name (srv_entry e)) (lower_name nm) = true)
+      assert (Ssuf1 : Server.is_suffix (Server.e_name (srv_entry e)) q = true)
         by (apply srv_is_suffix_spec; rewrite N1; exact Psuf).
       pose proof (Smax (srv_entry e) I1 C1 Ssuf1) as Le1. rewrite N1 in Le1. simpl in Le1.
       pose proof (Pmax _ _ A' Ssuf) as Le2.
@@ -80,6 +82,30 @@ Proof.
   - destruct S as [_ S]. destruct r as [e|]; [exfalso|reflexivity].
     destruct L as (p & Ap & Psuf & _). destruct (F1 e p Ap) as (I1 & C1 & N1).
     apply (S _ I1). split; [exact C1|]. apply srv_is_suffix_spec. rewrite N1. exact Psuf.
+Qed.
+
+(* the hash-map tree *)
+Lemma tree_lookup_flat (c : tcatalog) nm cls : wf_cat c ->
+  exists r, CatTree.cat_lookup c nm cls = Ok r /\
+            Server.cat_lookup (flat_of_tree c) (lower_name nm) cls None = option_map srv_entry r.
+Proof.
+  intros Hwf. destruct (cat_lookup_refine entry_kind c nm cls) as (r & E & L). exists r. split; [exact E|].
+  change (canon nm) with (lower_name nm) in L.
+  exact (flat_lookup_refmap (abs c) (cat_iter c) cls (lower_name nm) r (abs_consistent entry_kind c Hwf)
+           (cat_iter_refine entry_kind c Hwf) L).
+Qed.
+
+(* SingleZoneCatalog (src/db/single_zone_catalog.rs): the catalog holding exactly one entry *)
+Lemma single_lookup_flat (e : tentry) nm cls :
+  Server.cat_lookup [srv_entry e] (lower_name nm) cls None = option_map srv_entry (single_lookup e nm cls).
+Proof.
+  apply (flat_lookup_refmap (rm_insert CatTree.e_name CatTree.e_class rm_empty e) [e] cls (lower_name nm)).
+  - intros k x H. unfold rm_insert in H. destruct (skey_eq_dec k _) as [->|]; [inversion H; reflexivity|discriminate].
+  - split; [repeat constructor; intros []|]. intros x. split.
+    + intros [<-|[]]. exists (key_of CatTree.e_name CatTree.e_class e). unfold rm_insert.
+      destruct (skey_eq_dec _ _); [reflexivity|congruence].
+    + intros [k H]. unfold rm_insert in H. destruct (skey_eq_dec k _); [inversion H; left; reflexivity|discriminate].
+  - exact (CatTreeSingleP.single_lookup_refine entry_kind e nm cls).
 Qed.
 
 (* every catalog built by a history of inserts/removes (lookups, gets, iterations interleaved) *)
